@@ -38,6 +38,8 @@ def shards(tier, seed):
         out.append({"kind": "programs", "spec": "popen", "n": 60 if tier == "quick" else 12000})
     for sp in ("socket", "via", "python"):
         out.append({"kind": "programs", "spec": sp, "n": 45 if tier == "quick" else 6000})
+    for closed in ([2], [0, 2], [1, 2], [0, 1, 2]):
+        out.append({"kind": "programs", "spec": "popen" if len(closed) % 2 else "python", "n": 30 if tier == "quick" else 1500, "closed_fds": closed})
     out.append({"kind": "purity"})
     return out
 
@@ -132,6 +134,49 @@ def inside_close_after_peer_end(res, gw, rng, m):
     report.close()
 
 
+RAW_STDERR_PROBE = """
+import os, sys
+n = channel.receive()
+for fd in (2, 1):
+    try:
+        os.write(fd, b"confusion" * n)
+    except OSError:
+        pass
+for f in (sys.stderr, sys.__stderr__, sys.stdout):
+    try:
+        f.write("confusion" * n)
+        f.flush()
+    except (OSError, ValueError, AttributeError):
+        pass
+os.system("echo confusion 1>&2; echo confusion")
+channel.send(("after the writes", n))
+"""
+
+
+def raw_writes_with_inherited_closed_fds(res, gw, rng, m, closed):
+    """A worker whose initiator had standard descriptors closed when it started it: the lowest free descriptors are then
+    handed to whatever the worker opens first. Raw writes to descriptors 1 and 2 still never enter the protocol stream."""
+    n = rng.choice((1, 1, 2, 100, 8000))
+    label = f"worker started with descriptors {closed} closed; remote code writes {9 * n} bytes to fd 2, fd 1, sys.stderr, sys.stdout"
+    res.count("raw_write_probes_with_closed_descriptors")
+    try:
+        ch = gw.remote_exec(RAW_STDERR_PROBE)
+        ch.send(n)
+        got = ch.receive(20)
+        ch.waitclose(20)
+        echo = gw.remote_exec("channel.send(channel.receive())")
+        echo.send(("still", "usable", n))
+        got2 = echo.receive(20)
+    except BaseException as e:  # noqa
+        res.violation(m("raw-write-entered-protocol-stream"), f"{label}: {type(e).__name__}: {str(e)[:200]}")
+        return False
+    norm = lambda t: tuple(x.decode() if isinstance(x, bytes) else x for x in t) if isinstance(t, tuple) else t  # (switched string coercion)
+    if norm(got) != ("after the writes", n) or norm(got2) != ("still", "usable", n):
+        res.violation(m("raw-write-entered-protocol-stream"), f"{label}: received {short(got, 100)} then {short(got2, 100)}")
+        return False
+    return True
+
+
 def same_size_same_mtime_rewrite(res, gw, moddir, modname, m):
     """remote_exec(module) runs the module's source as it is now - also when an edit kept the file's size and a tool
     restored its timestamps (caches keyed by size and mtime must not decide what is shipped)"""
@@ -162,8 +207,27 @@ def run_programs(spec):
     sys.path.insert(0, moddir)
     group = execnet.Group()
     m = lambda name: f"{name}:{spec['spec']}"
+    closed = spec.get("closed_fds") or []
     try:
+        if closed:
+            # the worker is started by a process that has some of its standard descriptors closed (a daemon, `2>&-`):
+            # this process's own standard streams move out of the way first, and the descriptors are pointed at the null
+            # device again as soon as the worker runs
+            import fcntl
+
+            null = os.open(os.devnull, os.O_RDWR)
+            hi = fcntl.fcntl(null, fcntl.F_DUPFD, 100)
+            os.close(null)
+            sink = open(hi, "w")
+            sys.stdout = sys.stderr = sys.__stdout__ = sys.__stderr__ = sink
+            for fd in closed:
+                os.close(fd)
         gw, tee = make_gateway(group, spec["spec"])
+        for fd in closed:
+            try:
+                os.fstat(fd)  # taken by one of the pipes to the worker meanwhile: leave it
+            except OSError:
+                os.dup2(hi, fd)
         # on some gateways the string coercion is switched (both sides then load str items as bytes); what is executed
         # and how failures and keyword arguments travel must not depend on it
         py2 = spec["shard"] % 3 == 2
@@ -175,10 +239,17 @@ def run_programs(spec):
                 break
             if i % 15 == 7:
                 inside_close_after_peer_end(res, gw, rng, m)
+            if closed and i % 3 == 0:
+                if not raw_writes_with_inherited_closed_fds(res, gw, rng, m, closed):
+                    break
             if i % 15 == 3:
                 same_size_same_mtime_rewrite(res, gw, moddir, f"verif_c06_ss_{spec['shard']}_{i}", m)
             form = ("string", "function", "module")[i % 3]
             prog = dsl.gen_program(rng, g, big=(i % 17 == 0))
+            if closed:
+                # (the worker has no standard error: sys.stderr is None there and descriptor 2 is not writable, so remote
+                # code that writes to them fails on its own account; the raw writes are covered by the probe above)
+                prog["stmts"] = [("noise", "print", s[2]) if s[0] == "noise" and s[1] in ("stderr_write", "os_write2") else s for s in prog["stmts"]]
             if form != "function":
                 prog["stmts"] = [s for s in prog["stmts"] if s[0] != "kwarg"]
                 prog["kwargs"] = {}
